@@ -20,14 +20,16 @@ type Profile struct {
 	MaxStmts    int
 	MaxDepth    int
 	LoopBound   int
-	ClosureBias int // higher = more closure statements
+	ClosureBias int  // higher = more closure statements
+	Makers      bool // methods that return closures over their own locals and parameters
+	Deep        bool // deep(n, f): call a closure below n extra (non-tail) frames
 	// known finding (C14 catch-exit-skips-finally): no jump and no call inside a catch
 	// clause of a do expression that also has a finally clause
 	NoExitFromCatchWithFinally bool
 }
 
 var Control = Profile{Closures: true, Throw: true, Defer: true, Labels: true, Methods: true, Lists: true, ShortCirc: true, MaxStmts: 45, MaxDepth: 4, LoopBound: 3, ClosureBias: 1}
-var ClosureP = Profile{Closures: true, Throw: false, Defer: false, Labels: true, Methods: true, Lists: true, ShortCirc: false, MaxStmts: 40, MaxDepth: 3, LoopBound: 3, ClosureBias: 5}
+var ClosureP = Profile{Makers: true, Deep: true, Closures: true, Throw: false, Defer: false, Labels: true, Methods: true, Lists: true, ShortCirc: false, MaxStmts: 40, MaxDepth: 3, LoopBound: 3, ClosureBias: 5}
 
 type vinfo struct {
 	name string
@@ -44,18 +46,21 @@ type fnCtx struct {
 	inFinally int // > 0: no jumps (break/continue/return/throw) are generated
 	noCalls   int // > 0: no method / closure calls are generated
 	isFn      bool
+	noReturn  bool // body must not contain `return` (the method does not return Int)
 }
 
 type G struct {
-	t      *rapid.T
-	p      Profile
-	scopes [][]vinfo
-	fns    []*fnCtx
-	meths  []*N
-	id     int
-	budget int
-	usesTr bool
-	names  int
+	t        *rapid.T
+	p        Profile
+	scopes   [][]vinfo
+	fns      []*fnCtx
+	meths    []*N
+	makers   []*N
+	usesDeep bool
+	id       int
+	budget   int
+	usesTr   bool
+	names    int
 	// exclude names a variable that vars() must not return (see makeConditional)
 	exclude string
 	// Restricted counts catch clauses generated under the NoExitFromCatchWithFinally restriction
@@ -68,6 +73,18 @@ func (g *G) chance(n int, label string) bool { return g.draw(n, label) == 0 }
 func (g *G) fresh(prefix string) string {
 	g.names++
 	return fmt.Sprintf("%s%d", prefix, g.names)
+}
+
+// lookupType returns the type of a visible variable (TVoid if name is a method).
+func (g *G) lookupType(name string) Type {
+	for i := len(g.scopes) - 1; i >= 0; i-- {
+		for _, v := range g.scopes[i] {
+			if v.name == name {
+				return v.t
+			}
+		}
+	}
+	return TVoid
 }
 
 func (g *G) push()           { g.scopes = append(g.scopes, nil) }
@@ -98,10 +115,16 @@ func Gen(t *rapid.T, p Profile) *Program {
 			g.genMethod()
 		}
 	}
+	if p.Makers {
+		for i := g.draw(3, "nmakers"); i > 0; i-- {
+			g.genMaker()
+		}
+	}
 	g.scopes = [][]vinfo{nil}
 	g.fns = []*fnCtx{{}}
 	prog.Main = g.block(rapid.IntRange(3, 10).Draw(t, "nmain"), 0, false)
-	prog.Methods = g.meths
+	prog.Methods = append(g.meths, g.makers...)
+	prog.UsesDeep = g.usesDeep
 	prog.UsesTr = g.usesTr
 	prog.Restricted = g.Restricted
 	return prog
@@ -125,6 +148,36 @@ func (g *G) genMethod() {
 	m.B = [][]*N{body}
 	g.scopes, g.fns = savedScopes, savedFns
 	g.meths = append(g.meths, m)
+}
+
+// genMaker generates a method that returns a closure over its parameters and locals.
+func (g *G) genMaker() {
+	name := g.fresh("mk")
+	m := &N{K: "def", S: name, T: TFn0}
+	savedScopes, savedFns := g.scopes, g.fns
+	g.scopes = [][]vinfo{nil}
+	g.fns = []*fnCtx{{isFn: true, noReturn: true}}
+	for i := g.draw(3, "nmkparams"); i > 0; i-- {
+		pn := g.fresh("p")
+		m.X = append(m.X, &N{K: "param", S: pn, T: TInt})
+		g.declare(vinfo{pn, TInt, false})
+	}
+	body := g.block(rapid.IntRange(1, 4).Draw(g.t, "nmkbody"), 1, true)
+	g.makeConditional(body[len(body)-1])
+	// the closure that escapes (statement form, then named as the result)
+	cl := g.closure(1)
+	body = append(body, cl...)
+	var esc *N
+	for _, c := range cl {
+		if c.K == "closure" {
+			esc = c
+		}
+	}
+	body = append(body, &N{K: "expr", C: []*N{{K: "var", S: esc.S, T: esc.T}}})
+	m.T = esc.T
+	m.B = [][]*N{body}
+	g.scopes, g.fns = savedScopes, savedFns
+	g.makers = append(g.makers, m)
 }
 
 // block generates n statements in a new scope.
@@ -249,7 +302,7 @@ func (g *G) stmt(depth int) []*N {
 		if g.p.Throw {
 			kinds = append(kinds, "throw")
 		}
-		if f.isFn {
+		if f.isFn && !f.noReturn {
 			kinds = append(kinds, "return")
 		}
 	}
@@ -271,6 +324,12 @@ func (g *G) stmt(depth int) []*N {
 		for i := 0; i < g.p.ClosureBias; i++ {
 			kinds = append(kinds, "callstmt")
 		}
+	}
+	if len(g.makers) > 0 {
+		kinds = append(kinds, "mkdecl")
+	}
+	if g.p.ClosureBias > 1 && len(g.vars(TFn0, false)) > 0 {
+		kinds = append(kinds, "fnvar", "fnassign")
 	}
 	kinds = append(kinds, "assign", "decl", "assign", "decl", "print", "trace")
 	if g.p.Lists {
@@ -313,6 +372,40 @@ func (g *G) stmt(depth int) []*N {
 			e = &N{K: "int", I: int64(g.draw(4, "mul")) - 1, T: TInt}
 		}
 		return []*N{{K: "assign", S: v.name, L: op, C: []*N{e}}}
+	case "fnvar":
+		// a reassignable closure variable: closures of inner scopes escape through it
+		vs := g.vars(TFn0, false)
+		name := g.fresh("h")
+		n := &N{K: "decl", S: name, T: TFn0, C: []*N{{K: "var", S: vs[g.draw(len(vs), "fv")].name, T: TFn0}}}
+		g.declare(vinfo{name, TFn0, false})
+		return []*N{n}
+	case "fnassign":
+		ws := g.vars(TFn0, true)
+		vs := g.vars(TFn0, false)
+		if len(ws) == 0 {
+			return []*N{g.trace()}
+		}
+		// prefer the innermost closure (it captures the innermost variables)
+		src := vs[len(vs)-1-g.draw(len(vs), "fa")%len(vs)]
+		return []*N{{K: "assign", S: ws[g.draw(len(ws), "fw")].name, L: "=", C: []*N{{K: "var", S: src.name, T: TFn0}}}}
+	case "mkdecl":
+		m := g.makers[g.draw(len(g.makers), "maker")]
+		call := &N{K: "call", S: m.S, T: m.T}
+		for range m.X {
+			call.C = append(call.C, g.expr(TInt, 1))
+		}
+		name := g.fresh("f")
+		g.declare(vinfo{name, m.T, true})
+		out := []*N{{K: "decl", S: name, T: m.T, C: []*N{call}}}
+		// use the closure after the call that defined its variables has returned
+		for i := g.draw(3, "nmkuse"); i > 0 && g.fn().noCalls == 0; i-- {
+			use := &N{K: "call", S: name, T: TInt}
+			if m.T == TFn1 {
+				use.C = []*N{g.expr(TInt, 0)}
+			}
+			out = append(out, &N{K: "print", C: []*N{use}})
+		}
+		return out
 	case "push":
 		vs := g.vars(TLInt, true)
 		if len(vs) == 0 {
@@ -557,6 +650,16 @@ func (g *G) closure(depth int) []*N {
 	name := g.fresh("c")
 	t := []Type{TFn0, TFn1}[g.draw(2, "arity")]
 	n := &N{K: "closure", S: name, T: t}
+	outer := g.vars(TInt, true) // writable Int variables of the enclosing scopes
+	biased := g.p.ClosureBias > 1
+	var lead []*N
+	if biased && len(outer) == 0 {
+		// make sure there is something to share
+		vn := g.fresh("v")
+		lead = append(lead, &N{K: "decl", S: vn, T: TInt, C: []*N{{K: "int", I: int64(g.draw(8, "sv")), T: TInt}}})
+		g.declare(vinfo{vn, TInt, false})
+		outer = g.vars(TInt, true)
+	}
 	g.push()
 	g.fns = append(g.fns, &fnCtx{isFn: true})
 	if t == TFn1 {
@@ -564,14 +667,45 @@ func (g *G) closure(depth int) []*N {
 		n.X = []*N{{K: "param", S: pn, T: TInt}}
 		g.declare(vinfo{pn, TInt, false})
 	}
-	body := g.block(rapid.IntRange(1, 4).Draw(g.t, "ncl"), depth+1, true)
+	var pre []*N
+	var shared *vinfo
+	if biased && len(outer) > 0 && !g.chance(4, "nocap") {
+		// the closure updates a variable of an enclosing scope ...
+		v := outer[len(outer)-1-g.draw(len(outer), "capv")%len(outer)]
+		shared = &v
+		pre = append(pre, &N{K: "assign", S: v.name, L: []string{"+=", "+=", "-=", "="}[g.draw(4, "capop")], C: []*N{g.expr(TInt, 1)}})
+	}
+	body := append(pre, g.block(rapid.IntRange(1, 4).Draw(g.t, "ncl"), depth+1, true)...)
 	g.makeConditional(body[len(body)-1])
-	body = append(body, &N{K: "expr", C: []*N{g.expr(TInt, 2)}})
+	res := g.expr(TInt, 2)
+	if shared != nil && g.chance(2, "capres") {
+		// ... and returns its current value
+		res = &N{K: "var", S: shared.name, T: TInt}
+	}
+	body = append(body, &N{K: "expr", C: []*N{res}})
 	n.B = [][]*N{body}
 	g.fns = g.fns[:len(g.fns)-1]
 	g.pop()
 	g.declare(vinfo{name, t, true})
-	return []*N{n}
+	out := append(lead, n)
+	if shared != nil && g.fn().noCalls == 0 {
+		// the enclosing scope and the closure observe each other's updates
+		call := &N{K: "call", S: name, T: TInt}
+		if t == TFn1 {
+			call.C = []*N{g.expr(TInt, 0)}
+		}
+		for i := 1 + g.draw(4, "nfollow"); i > 0; i-- {
+			switch g.draw(4, "follow") {
+			case 0:
+				out = append(out, &N{K: "assign", S: shared.name, L: "+=", C: []*N{{K: "int", I: int64(1 + g.draw(4, "fw")), T: TInt}}})
+			case 1, 2:
+				out = append(out, &N{K: "print", C: []*N{call}})
+			default:
+				out = append(out, &N{K: "print", C: []*N{{K: "var", S: shared.name, T: TInt}}})
+			}
+		}
+	}
+	return out
 }
 
 // callExpr: a call of a visible closure or method (nil if none).
@@ -597,6 +731,10 @@ func (g *G) callExpr(depth int) *N {
 		return nil
 	}
 	c := cs[g.draw(len(cs), "callee")]
+	if g.p.Deep && c.np == 0 && g.lookupType(c.name) == TFn0 && g.chance(3, "deep") {
+		g.usesDeep = true
+		return &N{K: "call", S: "deep", T: TInt, C: []*N{{K: "int", I: int64(rapid.IntRange(20, 140).Draw(g.t, "deepn")), T: TInt}, {K: "var", S: c.name, T: TFn0}}}
+	}
 	n := &N{K: "call", S: c.name, T: TInt}
 	for i := 0; i < c.np; i++ {
 		n.C = append(n.C, g.expr(TInt, depth-1))
